@@ -125,6 +125,12 @@ type verifMapT map[string]int
 
 func (m verifMapT) MarshalText() ([]byte, error) { return []byte("labels"), nil }
 
+// a struct whose pointer receiver implements json.Marshaler: slice elements are addressable,
+// so encoding/json calls the method on every element of a []verifPM however the slice is reached
+type verifPM struct{ N int }
+
+func (p *verifPM) MarshalJSON() ([]byte, error) { return []byte(`"J"`), nil }
+
 func TestVerifDump(t *testing.T) {
 	if os.Getenv("VERIF_DUMP_DIR") == "" {
 		t.Skip("no VERIF_DUMP_DIR")
@@ -132,7 +138,37 @@ func TestVerifDump(t *testing.T) {
 	verifInitSyms()
 	types := map[string]interface{}{
 		"string": "", "slice_string": []string{}, "qstring": verifQS{}, "int64": int64(0), "bool": false,
-		"float64": float64(0), "bytes": []byte{}, "map_str_int": map[string]int{}, "map_marshaler": verifMapM{}, "map_textmarshaler": verifMapT{},
+		"float64": float64(0), "bytes": []byte{}, "map_str_int": map[string]int{}, "map_marshaler": verifMapM{}, "map_textmarshaler": verifMapT{}, "slice_ptrmarshaler": []verifPM{},
+		"tag_dashcomma": struct {
+			A bool `json:"-,"`
+		}{}, "tag_dash": struct {
+			A bool `json:"-"`
+		}{}, "tag_name": struct {
+			A bool `json:"nm"`
+		}{}, "tag_none": struct {
+			Ab bool
+		}{}, "tag_optonly": struct {
+			Ab bool `json:",omitempty"`
+		}{}, "tag_unexported": struct {
+			ab bool
+		}{}, "tag_string": struct {
+			A bool `json:"nm,string"`
+		}{},
+		"omit_float64": struct {
+			A float64 `json:"a,omitempty"`
+		}{}, "omit_float32": struct {
+			A float32 `json:"a,omitempty"`
+		}{}, "omit_int64": struct {
+			A int64 `json:"a,omitempty"`
+		}{}, "omit_int32": struct {
+			A int32 `json:"a,omitempty"`
+		}{}, "omit_int16": struct {
+			A int16 `json:"a,omitempty"`
+		}{}, "omit_int8": struct {
+			A int8 `json:"a,omitempty"`
+		}{}, "omit_bool": struct {
+			A bool `json:"a,omitempty"`
+		}{},
 		"int8": int8(0), "int16": int16(0), "int32": int32(0), "uint8": uint8(0), "uint16": uint16(0), "uint32": uint32(0), "uint64": uint64(0), "float32": float32(0),
 	}
 	for name, v := range types {
